@@ -135,6 +135,7 @@ inductive Verdict where
   | ok
   | knownOptSub      -- echoed only thanks to `(.*\.)?` matching the empty string
   | failEcho
+  | failEchoNoScheme
   | failEchoUnparsable
   | failStar
 deriving Repr, DecidableEq
@@ -144,6 +145,9 @@ def spec (origin : Bytes) (o : PURL) (allow : List (Bytes × PURL)) (r : Res) : 
   match r with
   | .echo =>
     if origin.isEmpty || !o.ok then .failEchoUnparsable
+    -- an Origin without a scheme ("null", a bare host name) has no scheme/host/port to share with an allowed origin:
+    -- echoing it is justified only when that very string is configured
+    else if o.scheme.isEmpty && !(allow.any (fun a => a.1 == origin)) then .failEchoNoScheme
     else if allow.any (fun a => a.2.ok && (specExact o a.2 || litWild o a.2)) then .ok
     else if allow.any (fun a => a.2.ok && wildMatch o a.2) then .knownOptSub
     else .failEcho
@@ -154,6 +158,7 @@ def Verdict.toStr : Verdict → String
   | .ok => "ok"
   | .knownOptSub => "KNOWN optionalSubdomainDot '*.' in an allowed origin also matches the empty string (the literal dot is dropped)"
   | .failEcho => "FAIL origin echoed although no allowed origin has the same scheme, host and port and no allowed wildcard of the same scheme matches"
+  | .failEchoNoScheme => "FAIL echoed an origin that has no scheme (e.g. null or a bare host name) and is not itself configured"
   | .failEchoUnparsable => "FAIL echoed an origin that is empty or unparsable"
   | .failStar => "FAIL '*' returned although '*' is not an allowed origin"
 
